@@ -462,7 +462,7 @@ func runItem(b *batch, from int, prog *progress, itemIdx int, touchEvery int) *i
 		})
 		if len(stray) > 0 {
 			d := b.desc(upTo)
-			res.violation(fmt.Sprintf("%s:stray-touch:pages=%s:mem=%s:%s", b.Engine, pagesClass(in.gm.size/wasmPage), memKindNames[b.Kind], upTo.spec.Op.Class),
+			res.violation(fmt.Sprintf("%s:stray-touch:pages=%s:%s:mem=%s", b.Engine, pagesClass(in.gm.size/wasmPage), upTo.spec.Op.Class, memKindNames[b.Kind]),
 				fmt.Sprintf("pages of the linear memory that no access of cases %d..%d addresses were touched (4 KiB page numbers %v)", firstSinceTouch, upTo.seq, stray[:min(len(stray), 8)]), d)
 			for _, p := range stray {
 				in.known[p*osPage/chunk] = true
@@ -530,12 +530,21 @@ func runItem(b *batch, from int, prog *progress, itemIdx int, touchEvery int) *i
 			dd := d
 			res.Sample = &dd
 		}
-		attrs := fmt.Sprintf("pages=%s:mem=%s", pagesClass(in.m.size/wasmPage), memKindNames[b.Kind])
-		if exp.AccRan && exp.EA+s.width() == 1<<32 {
-			attrs += ":end==2^32"
-		}
-		attrs += ":" + s.Op.Class
+		// signature = engine:class:pages=<class>[:end==2^32]:<op class>:mem=<kind>; for spurious out-of-bounds traps the
+		// memory kind is the discriminating attribute and comes first (and the end marker is irrelevant).
+		violated := false
 		viol := func(class, what string) {
+			violated = true
+			pc := "pages=" + pagesClass(in.m.size/wasmPage)
+			var attrs string
+			if class == "spurious-oob" {
+				attrs = fmt.Sprintf("%s:mem=%s:%s", pc, memKindNames[b.Kind], s.Op.Class)
+			} else {
+				if exp.AccRan && exp.EA+s.width() == 1<<32 {
+					pc += ":end==2^32"
+				}
+				attrs = fmt.Sprintf("%s:%s:mem=%s", pc, s.Op.Class, memKindNames[b.Kind])
+			}
 			res.violation(b.Engine+":"+class+":"+attrs, d.String()+": "+what, d)
 		}
 		// 1. outcome
@@ -584,7 +593,8 @@ func runItem(b *batch, from int, prog *progress, itemIdx int, touchEvery int) *i
 			in.open()
 			continue
 		}
-		if msg := in.verify(wins); msg != "" {
+		if msg := in.verify(wins); msg != "" && !violated {
+			// (after a wrong outcome the memory necessarily differs from the reference image: one report per case)
 			viol("memory-mismatch", msg)
 		}
 		if len(in.alloc.notes) > 0 {
@@ -617,7 +627,7 @@ func runItem(b *batch, from int, prog *progress, itemIdx int, touchEvery int) *i
 		}
 		if len(bad) > 0 {
 			sort.Slice(bad, func(i, j int) bool { return bad[i] < bad[j] })
-			res.violation(fmt.Sprintf("%s:memory-mismatch-batch:pages=%s:mem=%s:%s", b.Engine, pagesClass(uint64(b.Pages)), memKindNames[b.Kind], opByName(b.Op).Class),
+			res.violation(fmt.Sprintf("%s:memory-mismatch-batch:pages=%s:%s:mem=%s", b.Engine, pagesClass(uint64(b.Pages)), opByName(b.Op).Class, memKindNames[b.Kind]),
 				fmt.Sprintf("after the batch, 64 KiB chunks %v no longer hold the fill pattern although every case restored what it was allowed to write", bad), lastDesc)
 		}
 	}
